@@ -2,7 +2,9 @@
 import re, itertools
 from core import *  # noqa
 from roles import *  # noqa
-import roles, shared, symex, predeval, taint
+import roles, shared, symex, predeval, taint, inline, absint
+import queue_rules as Q
+import framing_rules as FRM
 
 EXPLANATION = (
     "Decision-table extraction and bound rules on MIR: new_request's framing decision is walked for every combination of {upgrade, Transfer-Encoding "
@@ -13,243 +15,245 @@ EXPLANATION = (
     "Equality of the returned bytes with the sent bytes and chunk-syntax variants are not decided.")
 TRUSTED = ["rustc MIR", "chunked_transfer::Decoder decodes the chunked coding and returns 0 at its end", "io::Read contract of the inner readers"]
 
-EXPECTED_READER = {
-    "raw": r"^std::boxed::Box::<R>::new$",
-    "empty": r"^std::boxed::Box::<std::io::Empty>::new$",
-    "buffer": r"^std::boxed::Box::<std::io::Cursor<std::vec::Vec<u8>>>::new$",
-    "equal": r"^std::boxed::Box::<util::fused_reader::FusedReader<util::equal_reader::EqualReader<R>>>::new$",
-    "chunked": r"^std::boxed::Box::<util::fused_reader::FusedReader<.*chunked_transfer::Decoder<R>.*>>::new$|^std::boxed::Box::<util::fused_reader::FusedReader<request::ChunkedBodyReader<R>>>::new$",
-}
-
-
 def run(ctx):
     facts = ctx.facts
     roles.bind(facts)
-    f = nr = facts.fn("request::new_request")
+    FM = FRM.fmodel(facts)
+    f = FM.nr
     ctx.touch(f)
-    req_cons = sorted({bb for g, bb, s in facts.constructions(REQ) if g.id == f.id})
-    ctx.require(len(req_cons) == 1, "C03.1: Request construction in new_request")
-    rc = req_cons[0]
-    # the construction statement and the locals it uses
-    cons_stmt = [s for s in f.stmts(rc) if s["s"] == "assign" and s["rhs"]["rv"] == "agg" and s["rhs"].get("adt") == REQ][0]
-    r = cons_stmt["rhs"]
-    o_len = f.origin(r["ops"][r["fields"].index("body_length")])
-    cl_local = [x[1] for x in origin_walk(o_len) if x[0] == "local"]
-    ctx.require(cl_local, "C03.1: body_length is not a local")
-    CL = cl_local[0]
-    # locate the decisive locals
-    def bool_local_from(lit_re):
-        """multi-def bool local that is set true only under contains/eq_ignore_ascii_case of a literal matching lit_re"""
-        for i, l in enumerate(f.locals):
-            if l["ty"] != "bool" or i in f.flag_locals():
-                continue
-            defs = [d for d in f.defs().get(i, []) if d[0] == "assign" and d[3]["rv"] == "use" and isinstance(op_const(d[3]["op"]), bool)]
-            if len(defs) < 2 or len(defs) != len([d for d in f.defs().get(i, []) if d[0] in ("assign", "call")]):
-                continue
-            for d in defs:
-                if op_const(d[3]["op"]) is True:
-                    for cb, t in f.calls():
-                        if t.get("target") is None:
-                            continue
-                        lits = [c for c in arg_consts(f, t) if isinstance(c, str)]
-                        if lits and re.search(lit_re, lits[0]) and call_matches(t, r"contains|eq_ignore_ascii_case"):
-                            bs = bool_switch(f, t["target"])
-                            if bs and f.dominates(bs[1], d[1], unwind=False):
-                                return i
-        return None
-    UP = bool_local_from(r"^upgrade$")
-    EX = bool_local_from(r"^100-continue$")
-    if UP is None or EX is None:
-        ctx.ob("C03.1", "%s|framing-table" % f.id, "the framing decision is made on the recognised predicates (Connection value lower-cased contains `upgrade`; Expect equals `100-continue` ignoring case)",
-               False, "%s:%d" % (f.file, f.line), "the %s predicate of new_request is not the one ClientConnection::next uses for the same header (the two sites would disagree on which request ends the connection / owns the raw stream)" % ("upgrade" if UP is None else "Expect"))
-        return finish_c03(ctx, facts, f, f.dominators(False))
-    # start: first switch that reads UP after all header lookups (dominates the Request construction)
-    dom = f.dominators(False)
-    starts = [b for b in dom[rc] if bool_switch(f, b) and any(x == ("local", UP) for x in origin_walk(f.origin(bool_switch(f, b)[0])))]
-    ctx.require(starts, "C03.1: branch on the upgrade flag not found")
-    start = min(starts, key=lambda b: len(dom[b]))
-    box_calls = {bb: t for bb, t in f.calls() if call_matches(t, r"^std::boxed::Box::<.*>::new$")}
-    bad = []
-    rows = 0
-    table = {}
-    for up, te, cl, ex in itertools.product([False, True], [False, True], [None, 0, 1, 1023, 1024, 1025, 1 << 40], [False, True]):
-        if te and cl is not None:
-            continue  # Content-Length is not consulted when Transfer-Encoding is present (C16.5)
-        env = {("local", UP): up, ("local", EX): ex, ("local", CL): None if cl is None else ("some", cl)}
-        asg = {}
-        def atom_of(bb):
-            t = f.term(bb)
-            if t["t"] != "switch" or op_local(t["discr"]) in f.flag_locals():
-                return None
-            sw = switch_on_discr(f, bb)
-            if sw:
-                rv, m, otherwise, rest = sw
-                if not rv["pl"]["p"] and rv["pl"]["l"] == CL:
-                    v = "None" if cl is None else "Some"
-                    mm = dict(m)
-                    for r_ in rest:
-                        mm[r_] = otherwise
-                    asg["cl"] = True
-                    return ("cl", {True: mm[v]})
-                if rv.get("adt") == "std::ops::ControlFlow":
-                    asg["cf"] = True
-                    return ("cf", {True: m.get("Continue", otherwise)})
-                return None
-            bs = bool_switch(f, bb)
-            if not bs:
-                return None
-            o = f.origin(bs[0])
-            if o[0] == "call" and o[1].endswith("Option::<T>::is_some") and origin_has_call(o, r"Iterator>?::find"):
-                asg["te%d" % bb] = te
-                return ("te%d" % bb, {True: bs[1], False: bs[2]})
-            try:
-                v = predeval.ev(f, o, env)
-            except predeval.Unknown as e:
-                return None     # not a framing decision (e.g. the pre-read loop's own tests): explore both sides
-            asg["g%d" % bb] = bool(v)
-            return ("g%d" % bb, {True: bs[1], False: bs[2]})
-        class Lazy(dict):
-            def __missing__(self, k):
-                return asg_vals[k]
-        asg_vals = asg
-        paths = shared.walk_paths(f, start, atom_of, asg, {rc} | set(f.returns()))
-        rows += 1
-        ctx.paths += len(paths)
-        if up:
-            want = "raw"
-        elif te:
-            want = "chunked"
-        elif cl is None or cl == 0:
-            want = "empty"
-        elif cl <= 1024 and not ex:
-            want = "buffer"
-        else:
-            want = "equal"
-        gots = []
-        for end, visited in paths:
-            if end != rc:
-                continue      # error returns of the pre-read loop
-            built = [(box_calls[b].get("res_name") or "") for b in visited if b in box_calls]
-            readers = [b for b in built if "dyn std::io::Write" not in b and "SequentialWriter" not in b and not re.search(r"Box::<W>::new$", b)]
-            got = [k for k, rx in EXPECTED_READER.items() for b in readers if re.search(rx, b)]
-            gots.append(got or readers)
-        table[(up, te, cl, ex)] = gots
-        if not gots or any(g != [want] for g in gots):
-            bad.append(((up, te, cl, ex), gots[:2], want))
+    where = "%s:%d" % (f.file, f.line)
+    ctx.paths += len(FM.paths)
+
+    # ---- C03.1 framing table
+    seen = {a[0][:2] if a[0][0] == "present" else a[0][:1] for r in FM.rows for a in r["atoms"]}
+    need = {("present", h) for h in FRM.HEADERS} | {("upgrade",), ("expect100",)}
+    ctx.ob("C03.1", "%s|framing-atoms" % FM.nr0.id, "the framing decision consults the Connection, Transfer-Encoding, Content-Length and Expect headers (looked up case-insensitively by name), `upgrade` in the lower-cased Connection value and `100-continue`",
+           need <= seen, where, str(sorted(map(str, seen))))
+    low = [a[0][1] for r in FM.rows for a in r["atoms"] if a[0][0] == "upgrade"]
+    ctx.ob("C03.1", "%s|upgrade-on-lowercased-value" % FM.nr0.id, "`upgrade` is searched in the ASCII-lower-cased Connection value (the same predicate the connection parser uses to end the connection)", bool(low) and all(low), where)
+    bad, rows = FRM.table_mismatches(FM, {"reader", "kind"}, merge={"buffer": "exactly-CL", "equal": "exactly-CL"})
     ctx.counts["C03.1 rows"] = rows
-    ctx.ob("C03.1", "%s|framing-table" % f.id,
-           "for every combination of upgrade / Transfer-Encoding / Content-Length class / Expect the body reader is: raw stream for upgrade; chunk decoder when Transfer-Encoding is present; empty for no or zero length; a pre-read buffer for 1..=1024 without Expect; a length-limited reader otherwise",
-           not bad, f.loc(start), None if not bad else "mismatches ((upgrade,TE,CL,expect), got, want): %s" % bad[:4])
-    # Transfer-Encoding takes precedence: the Content-Length lookup happens only when no Transfer-Encoding header exists
-    shared.te_precedence(ctx, "C03.1", "TE-takes-precedence")
-    # body_length is the Content-Length consulted above; EqualReader gets the same value
-    eqn = [(bb, t) for bb, t in f.calls() if call_matches(t, r"EqualReader::<R>::new$")]
-    for bb, t in eqn:
-        o = f.origin(t["args"][1])
-        ok = any(x == ("local", CL) for x in origin_walk(o))
-        ctx.ob("C03.1", "%s|limit-is-content-length" % f.id, "the length-limited reader is limited to the declared Content-Length", ok, f.loc(bb), origin_str(o))
-        osrc = f.origin(t["args"][0])
-        ctx.ob("C03.1", "%s|limited-reader-wraps-socket" % f.id, "... and reads from this request's share of the connection", any(x[0] == "arg" and "R" == f.local_ty(x[1]) for x in origin_walk(osrc)), f.loc(bb))
-    ctx.ob("C03.1", "%s|body_length-reported" % f.id, "body_length() reports that same Content-Length (None when none was used)", True, f.loc(rc), origin_str(o_len), nontrivial=False)
+    ctx.ob("C03.1", "%s|framing-table" % FM.nr0.id,
+           "for every combination of upgrade / Transfer-Encoding / Content-Length class / Expect the body reader is: raw stream for upgrade; chunk decoder when Transfer-Encoding is present (whatever Content-Length says); "
+           "empty for no or zero length; exactly Content-Length bytes otherwise (buffered or length-limited)",
+           not bad, where, None if not bad else "mismatches (assignment, got, want): %s" % bad[:4])
+    bad, rows = FRM.table_mismatches(FM, {"length"})
+    ctx.ob("C03.1", "%s|body_length-reported" % FM.nr0.id, "the declared length is reported exactly when a Content-Length decided the framing (not next to Transfer-Encoding)", not bad, where, None if not bad else str(bad[:4]))
+    # the limit of the length-limited reader and the reported length are that same Content-Length value
+    n_eq = 0
+    for r in FM.rows:
+        if r["kind"] != "ok" or r["reader"] not in ("equal", "buffer"):
+            continue
+        p = r["path"]
+        lens = [absint.deep(p.state, v) for v in r["length"]]
+        ok = bool(lens) and all(v[0] == "some" and FRM.is_cl_value(facts, v[1]) for v in lens)
+        if r["reader"] == "equal":
+            n_eq += 1
+            eq = [e for e in p.calls() if re.search(r"EqualReader::<R>::new$", e[2])]
+            lim = absint.deep(p.state, eq[0][3][1]) if eq and len(eq[0][3]) > 1 else None
+            ok = ok and lim is not None and lim == lens[0][1]
+            src_ok = bool(eq) and eq[0][3][0] == ("init", (FM.src,))
+            ctx.ob("C03.1", "%s|limit-is-content-length" % FM.nr0.id, "the length-limited reader is limited to the declared Content-Length and reads from this request's share of the connection", ok and src_ok, where,
+                   None if ok and src_ok else "limit=%s length=%s" % (symex.sym_str(lim) if lim else None, [symex.sym_str(x) for x in lens]))
+        else:
+            bufs = [e for e in p.calls() if re.search(r"vec::from_elem", e[2])]
+            okb = bool(bufs) and any(absint.deep(p.state, e[3][1]) == lens[0][1] for e in bufs if len(e[3]) > 1) if lens and lens[0][0] == "some" else False
+            ctx.ob("C03.3", "%s|buffer-of-content-length" % FM.nr0.id, "the pre-read buffer has exactly Content-Length bytes", ok and okb, where)
+    ctx.floor("C03.1 length-limited paths", n_eq, 1)
+
+    # ---- C03.3 the pre-read fills the whole buffer: a short read is followed by another read
+    preread_rules(ctx, "C03.3")
+
+    # ---- C03.4 framed readers are fused
+    for kind in ("equal", "chunked"):
+        rs = [r for r in FM.rows if r["kind"] == "ok" and r["reader"] == kind]
+        ctx.ob("C03.4", "%s|fused|%s" % (FM.nr0.id, kind), "a framed body reader is wrapped in FusedReader (after its end it must stay at end-of-stream; a chunk decoder would otherwise parse following bytes as a chunk header)",
+               bool(rs) and all(r["fused"] for r in rs), where)
 
     # ---- C03.2 EqualReader::read
-    g = method(facts, T_READ, ER, "read")
+    equal_reader_rules(ctx, "C03.2")
+    return finish_c03(ctx, facts)
+
+
+def preread_rules(ctx, rule):
+    """the parse-time read of a small body: loop until full, end of stream is an error"""
+    facts = ctx.facts
+    FM = FRM.fmodel(facts)
+    f = FM.nr
+    where = "%s:%d" % (f.file, f.line)
+    READ = r"std::io::Read::read$| as std::io::Read>::read$"
+    rows = [r for r in FM.rows if any(re.search(READ, e[2]) or (e[6] == "std::io::Read::read") for e in r["path"].calls())]
+    exact = [r for r in FM.rows if any((e[6] or "") == "std::io::Read::read_exact" for e in r["path"].calls())]
+    if exact and not rows:
+        ctx.ob(rule, "%s|loop-until-full" % FM.nr0.id, "small bodies are read completely at parse time (read_exact)", True, where)
+        return
+    if not rows:
+        ctx.ob(rule, "%s|loop-until-full" % FM.nr0.id, "small bodies are read at parse time", False, where, "no path of new_request reads from the socket")
+        return
+    bad_short, bad_eof = [], []
+    n_short = n_eof = 0
+    full_exits = 0
+    for r in rows:
+        p = r["path"]
+        # positions of read events and of the conditions in path order: walk blocks
+        order = {}
+        for i, b in enumerate(p.blocks):
+            order.setdefault(b, []).append(i)
+        read_pos = sorted(i for e in p.calls() if (re.search(READ, e[2]) or e[6] == "std::io::Read::read") for i in order.get(e[0], []))
+        nth = {}
+        for bb, c in p.conds:
+            k = nth.get(bb, 0)
+            nth[bb] = k + 1
+            if not c or c[0] != "scalar":
+                continue
+            v, val = c[1], c[2]
+            neg = False
+            while v[0] == "unop" and v[1] == "Not":
+                v, neg = v[2], not neg
+            occ = order.get(bb, [0])
+            pos = occ[k] if k < len(occ) else occ[-1]
+            def is_read(x):
+                h = absint.head_call(x)
+                return h is not None and bool(re.search(READ, h[1]) or (len(h) > 4 and "Read>::read" in (h[4] or "")))
+            def is_count(x):
+                ls = absint.sum_leaves(x)
+                return any(is_read(l) for l in ls) and all(is_read(l) or absint.const_of(l) is not None for l in ls)
+            reads_in = is_read
+            is_fill_test = False
+            if v[0] == "binop" and v[1] in ("Ne", "Eq", "Lt", "Ge") and isinstance(val, bool):
+                a, b = v[2], v[3]
+                is_fill_test = (FRM.is_cl_value(facts, a) and is_count(b)) or (FRM.is_cl_value(facts, b) and is_count(a))
+            if is_fill_test:
+                if True:
+                    tv = val != neg
+                    full = (v[1] in ("Eq", "Ge") and tv) or (v[1] in ("Ne", "Lt") and not tv)
+                    if full:
+                        full_exits += 1
+                    else:
+                        n_short += 1
+                        later = [x for x in read_pos if x > pos]
+                        if not later and p.end[0] != "cut":
+                            bad_short.append(ret_str(p))
+            elif reads_in(v) and not isinstance(val, bool):
+                # switch on the count a read returned
+                if val == 0:
+                    n_eof += 1
+                    if r["kind"] != "err":
+                        bad_eof.append(ret_str(p))
+            elif v[0] == "binop" and v[1] in ("Eq", "Ne") and isinstance(val, bool) and ((reads_in(v[2]) and absint.const_of(v[3]) == 0) or (reads_in(v[3]) and absint.const_of(v[2]) == 0)):
+                tv = val != neg
+                if (v[1] == "Eq") == tv:
+                    n_eof += 1
+                    if r["kind"] != "err":
+                        bad_eof.append(ret_str(p))
+    ctx.ob(rule, "%s|loop-until-full" % FM.nr0.id, "small bodies are read in a loop until Content-Length bytes have arrived: a read that leaves the buffer short is followed by another read (never by giving up or by delivering what arrived)",
+           n_short > 0 and full_exits > 0 and not bad_short, where, None if not bad_short and n_short else ("after a short read: %s" % bad_short[:3] if bad_short else "no path on which the buffer is still short after a read: the read is not repeated"))
+    ctx.ob(rule, "%s|eof-in-body-builds-no-request" % FM.nr0.id, "end of stream before the declared small body has arrived is an error: no request is built", n_eof > 0 and not bad_eof, where,
+           None if not bad_eof and n_eof else (str(bad_eof[:3]) if bad_eof else "no test of a zero-length read"))
+
+
+def ret_str(p):
+    import queue_rules as Q
+    return Q._ret_str(p)
+
+
+def equal_reader_rules(ctx, rule):
+    """EqualReader::read never asks the inner reader for more than `size` bytes, returns Ok(0) at size 0 without touching it, and
+    decreases size by the count returned (decided on the abstract paths of the method, whatever its spelling)"""
+    facts = ctx.facts
+    g0 = method(facts, T_READ, ER, "read")
+    g = inline.inlined(facts, g0.id, stop=lambda d: facts.fns[d].rec.get("local") and facts.fns[d].file != g0.file, extern_ok=Q.std_small)
     ctx.touch(g)
-    reads = [(bb, t) for bb, t in g.calls() if t.get("callee") == "std::io::Read::read" and "reader" in arg_origin_fields(g, t)]
-    ctx.require(len(reads) == 1, "C03.2: inner read call of EqualReader::read")
-    rb, rt = reads[0]
-    # (a) size == 0 => Ok(0) without touching the inner reader
-    ok = False
-    for bb in sorted(g.live_blocks()):
-        bs = bool_switch(g, bb)
-        if not bs:
+    where = "%s:%d" % (g.file, g.line)
+    er = facts.adt(ER)["variants"][0]["fields"]
+    size_f = [x["name"] for x in er if x["ty"] == "usize"]
+    ctx.require(len(size_f) == 1, "%s: remaining-size field of EqualReader" % rule)
+    SIZE = ("init", (1, "*", "." + size_f[0]))
+    BUF = ("init", (2,))
+    READ = r"std::io::Read::read$| as std::io::Read>::read$"
+    def mentions(v, needle):
+        return absint.contains(v, needle)
+    # size == 0
+    st = symex.Sym(g)
+    st.write_key((1, "*", "." + size_f[0]), ("const", 0, "0_usize", None))
+    ps = [p for p in absint.explore(g, 0, st) if p.end[0] not in FRM.DEAD]
+    ok = bool(ps) and all(p.end[0] == "return" and p.ret() == ("agg", "std::result::Result", "Ok", {"0": ("const", 0, "0_usize", None)}) or
+                          (p.end[0] == "return" and p.ret()[0] == "agg" and p.ret()[2] == "Ok" and absint.const_of(p.ret()[3]["0"]) == 0) for p in ps) \
+        and not any(re.search(READ, e[2]) or e[6] == "std::io::Read::read" for p in ps for e in p.calls())
+    ctx.ob(rule, "%s|eof-at-zero" % g0.id, "with nothing remaining, read returns Ok(0) without touching the inner reader (never reads past the declared length)", ok, where)
+    # general case
+    ps = [p for p in absint.explore(g, 0, None) if p.end[0] not in FRM.DEAD]
+    ctx.paths += len(ps)
+    n = 0
+    bad_bound, bad_dec, bad_ret = [], [], []
+    for p in ps:
+        reads = [e for e in p.calls() if re.search(READ, e[2]) or e[6] == "std::io::Read::read"]
+        if not reads:
             continue
-        o = g.origin(bs[0])
-        if o[0] == "binop" and o[1] == "Eq" and "size" in origin_fields(o[2]) and o[3][0] == "const" and o[3][1] == 0:
-            outs = shared.eval_from(g, bs[1])
-            z = bool(outs) and all(st.read_key((0,))[0] == "agg" and st.read_key((0,))[2] == "Ok" and st.read_key((0,))[3]["0"][1] == 0 for p, st in outs)
-            ok = z and rb not in g.reach([bs[1]], unwind=False) and g.dominates(bs[2], rb, unwind=False)
-    ctx.ob("C03.2", "%s|eof-at-zero" % g.id, "with nothing remaining, read returns Ok(0) without touching the inner reader (never reads past the declared length)", ok, "%s:%d" % (g.file, g.line))
-    # (b) the slice handed to the inner reader is no longer than `size`
-    bl = op_local(rt["args"][1])
-    src = bl
-    d = g.single_def(bl)
-    while d and d[0] == "assign" and d[3]["rv"] in ("ref", "use"):
-        p = d[3]["pl"] if d[3]["rv"] == "ref" else op_place(d[3]["op"])
-        if p is None:
-            break
-        src = p["l"]
-        d = g.single_def(src)
-    defs = [x for x in g.defs().get(src, []) if x[0] in ("assign", "call")]
-    okb = bool(defs)
-    detail = []
-    for x in defs:
-        if x[0] == "assign":
-            o = g.origin(x[3]["op"]) if x[3]["rv"] == "use" else g.origin_place(x[3]["pl"])
-            # whole caller buffer: only under `len(buf) < size`
-            if any(y == ("arg", 2) for y in origin_walk(o)) and not origin_has_call(o, r"index"):
-                fine = False
-                for b in g.dominators(False)[x[1]]:
-                    bs = bool_switch(g, b)
-                    if bs:
-                        c = g.origin(bs[0])
-                        if c[0] == "binop" and c[1] in ("Lt", "Le") and origin_has_call(c[2], r"::len$") and "size" in origin_fields(c[3]) \
-                                and not any(y[0] in ("binop", "call") for y in origin_walk(c[3])) and g.dominates(bs[1], x[1], unwind=False) and bs[1] != bs[2]:
-                            fine = True
-                detail.append("whole-buffer%s" % ("" if fine else " UNGUARDED"))
-                okb = okb and fine
-            elif origin_has_call(o, r"index_mut$|index$"):
-                idx = [y for y in origin_calls(o) if re.search(r"index(_mut)?$", y[1])][0]
-                rng = idx[2][1]
-                fine = rng[0] == "agg" and str(rng[1]).endswith("RangeTo") and "size" in origin_fields(rng[2][0]) and rng[2][0][0] in ("field", "deref")
-                fine = fine and not any(y[0] == "binop" for y in origin_walk(rng[2][0]))
-                detail.append("[..size]%s" % ("" if fine else " WRONG-BOUND"))
-                okb = okb and fine
-            elif origin_has_call(o, r"::min$"):
-                detail.append("min")
-            else:
-                detail.append("unrecognised: " + origin_str(o))
-                okb = False
-    ctx.ob("C03.2", "%s|slice-bounded-by-size" % g.id, "the buffer handed to the inner reader is the caller's buffer only when it is shorter than the remaining size, otherwise its prefix of exactly `size` bytes",
-           okb, g.loc(rb), ", ".join(detail))
-    # (c) size decreases by the returned count
-    ws = [(bb, x) for h, bb, kind, x in facts.field_writes(ER, "size") if h.id == g.id and kind == "assign"]
-    okc = len(ws) == 1
-    if okc:
-        o = g.origin(ws[0][1]["rhs"]["op"])
-        subs = [y for y in origin_walk(o) if y[0] == "binop" and y[1] in ("Sub", "SubWithOverflow")]
-        okc = bool(subs) and "size" in origin_fields(subs[0][2]) and any(z[0] == "downcast" and z[2] == "Ok" for z in origin_walk(subs[0][3]))
-    ctx.ob("C03.2", "%s|size-decremented-by-count" % g.id, "the remaining size decreases by exactly the count the inner read returned", okc, "%s:%d" % (g.file, g.line))
-    okr = False
-    for bb, i, s in g.assigns():
-        if s["lhs"] == {"l": 0, "p": []} and s["rhs"].get("variant") == "Ok":
-            o = g.origin(s["rhs"]["ops"][0])
-            if any(z[0] == "downcast" and z[2] == "Ok" for z in origin_walk(o)):
-                okr = True
-    ctx.ob("C03.2", "%s|returns-count" % g.id, "read returns the inner reader's count unchanged", okr, "%s:%d" % (g.file, g.line))
-
-    # ---- C03.3 pre-read loop fills exactly Content-Length bytes
-    pre = [(bb, t) for bb, t in f.calls() if t.get("callee") == "std::io::Read::read" and f.in_loop(bb)]
-    if len(pre) != 1:
-        anyread = [bb for bb, t in f.calls() if t.get("callee") == "std::io::Read::read"]
-        ctx.ob("C03.3", "%s|loop-until-full" % f.id, "small bodies are read in a loop until Content-Length bytes have arrived", False, f.loc(anyread[0]) if anyread else f.file,
-               "the parse-time read of the body is not inside a loop (%d looping reads)" % len(pre))
-        return finish_c03(ctx, facts, f, dom)
-    pb, pt = pre[0]
-    obuf = f.origin(pt["args"][1])
-    fe = [y for y in origin_calls(obuf) if re.search(r"vec::from_elem", y[1])]
-    ok = bool(fe) and any(x == ("local", CL) for x in origin_walk(fe[0][2][1])) and origin_has_call(obuf, r"index_mut$")
-    ctx.ob("C03.3", "%s|buffer-of-content-length" % f.id, "the pre-read buffer has exactly Content-Length bytes and reads go into its unfilled tail", ok, f.loc(pb), origin_str(obuf)[:160])
-    hdrs = [b for b in dom[pb] if bool_switch(f, b) and f.in_loop(b)]
-    h = max(hdrs, key=lambda b: len(dom[b]))
-    o = f.origin(bool_switch(f, h)[0])
-    ok = o[0] == "binop" and o[1] in ("Ne", "Lt") and any(x == ("local", CL) for x in origin_walk(o[3])) and o[2][0] == "local"
-    ctx.ob("C03.3", "%s|loop-until-full" % f.id, "the loop runs until the filled count equals Content-Length", ok, f.loc(h), origin_str(o))
-    return finish_c03(ctx, facts, f, dom)
+        n += 1
+        if len(reads) != 1:
+            bad_bound.append("%d inner reads" % len(reads))
+            continue
+        e = reads[0]
+        buf = e[3][1] if len(e[3]) > 1 else ("unknown",)
+        if buf[0] == "ref" and e[5][1] is not None:
+            inner = e[5][1]
+            while inner[0] == "deref":
+                inner = inner[1]
+            if inner[0] in ("init", "call", "ref"):
+                buf = inner
+        bound_ok = False
+        how = symex.sym_str(buf)[:120]
+        if buf == BUF or buf == ("ref", (2, "*")) or (buf[0] == "ref" and buf[1][0] == 2 and all(x == "*" for x in buf[1][1:])):
+            # the caller's whole buffer: only under `len(buf) < size` (or <=)
+            for bb, c in p.conds:
+                if c and c[0] == "scalar" and isinstance(c[2], bool) and c[1][0] == "binop":
+                    op, a, b = c[1][1], c[1][2], c[1][3]
+                    la = any(x and x[0] in ("len", "ptrmeta") or (x and x[0] == "call" and x[1].endswith("::len")) or (x and x[0] == "unop" and x[1] == "PtrMetadata") for x in absint.walk_terms(a))
+                    lb = any((x and x[0] == "call" and x[1].endswith("::len")) or (x and x[0] == "unop" and x[1] == "PtrMetadata") for x in absint.walk_terms(b))
+                    if op in ("Lt", "Le") and la and b == SIZE and c[2]:
+                        bound_ok = True
+                    if op in ("Gt", "Ge") and a == SIZE and lb and c[2]:
+                        bound_ok = True
+                    if op in ("Ge", "Gt") and la and b == SIZE and not c[2]:
+                        bound_ok = True
+                    if op in ("Lt", "Le") and a == SIZE and lb and not c[2] and op == "Le":
+                        bound_ok = True
+        else:
+            d = absint.deep(p.state, buf)
+            for x in absint.walk_terms(d):
+                if x and x[0] == "call" and re.search(r"index(_mut)?$", x[1]) and len(x[2]) > 1:
+                    rng = x[2][1]
+                    if rng[0] == "agg" and str(rng[1]).endswith("RangeTo"):
+                        end = list(rng[3].values())[0]
+                        if end == SIZE:
+                            bound_ok = True
+                        if end[0] == "call" and re.search(r"::min$", end[1]) and SIZE in [absint.deep(p.state, a) if a[0] != "init" else a for a in end[2]]:
+                            bound_ok = True
+                        how = "[..%s]" % symex.sym_str(end)[:80]
+        if not bound_ok:
+            bad_bound.append(how)
+        # bookkeeping on the path where the inner read succeeded
+        if p.end[0] == "return" and p.ret()[0] == "agg" and p.ret()[2] == "Ok":
+            cnt = p.ret()[3]["0"]
+            from_read = any(x and x[0] in ("payload", "downcast", "refined", "call") and absint.contains(x, e[4]) for x in absint.walk_terms(cnt)) or absint.contains(cnt, e[4])
+            if not from_read:
+                bad_ret.append(symex.sym_str(cnt)[:80])
+            fin = p.state.read_key((1, "*", "." + size_f[0]))
+            subs = [x for x in absint.walk_terms(fin) if x and x[0] == "binop" and x[1] in ("Sub", "SubWithOverflow", "SubUnchecked")]
+            ok_d = bool(subs) and subs[0][2] == SIZE and absint.contains(subs[0][3], e[4])
+            if not ok_d and not (fin[0] == "call" and re.search(r"(saturating|wrapping|checked)_sub$", fin[1]) and False):
+                bad_dec.append(symex.sym_str(fin)[:100])
+    ctx.floor("%s paths of EqualReader::read that reach the inner reader" % rule, n, 1)
+    ctx.ob(rule, "%s|slice-bounded-by-size" % g0.id, "the buffer handed to the inner reader is the caller's buffer only when it is shorter than the remaining size, otherwise a prefix of at most `size` bytes",
+           not bad_bound, where, None if not bad_bound else str(bad_bound[:3]))
+    ctx.ob(rule, "%s|size-decremented-by-count" % g0.id, "the remaining size decreases by exactly the count the inner read returned", not bad_dec, where, None if not bad_dec else str(bad_dec[:3]))
+    ctx.ob(rule, "%s|returns-count" % g0.id, "read returns the inner reader's count unchanged", not bad_ret, where, None if not bad_ret else str(bad_ret[:3]))
 
 
-def finish_c03(ctx, facts, f, dom):
-    # ---- C03.4 fused
+def finish_c03(ctx, facts):
+    # ---- C03.4 the fused reader itself
+    f = FRM.fmodel(facts).nr0
     insts = [i for i in facts.instances_of(f.id) if not i["generic"] and "SequentialReader<" in i["name"]]
     ctx.require(len(insts) == 1, "C03.4: connection instance of new_request")
     n = 0
